@@ -122,8 +122,49 @@ type replayCtx struct {
 	pins    []*Term
 	notes   []string
 	fail    string
-	bigOf   func() (*big.Int, bool)
 	needBig bool
+	needPtr bool
+	absVals map[string]int
+	absConsts []*Term
+	model   map[string]*sx
+	depth   int
+}
+
+// objLit: &T{...} from the model's values of the object's fields (keys key.Field).
+func (rc *replayCtx) objLit(key string, t types.Type) (string, bool) {
+	sT, ok := derefStruct(t)
+	if !ok {
+		return "", false
+	}
+	if rc.depth > 3 {
+		return "", false
+	}
+	rc.depth++
+	defer func() { rc.depth-- }()
+	var parts []string
+	for i := 0; i < sT.NumFields(); i++ {
+		f := sT.Field(i)
+		k := key + "." + f.Name()
+		mv, ok := rc.model[k]
+		if !ok {
+			continue // never read: its zero value is as good as any
+		}
+		s, tm, ok := rc.lit(f.Type(), mv, k)
+		if !ok {
+			rc.notes = append(rc.notes, "field "+k+" could not be reconstructed; left at its zero value and not pinned")
+			continue
+		}
+		if f.Exported() || f.Pkg() == rc.pkg {
+			parts = append(parts, f.Name()+": "+s)
+		}
+		if tm != nil && rc.ex.inputs[k] != nil {
+			rc.pins = append(rc.pins, rc.ex.p.Eq(rc.ex.inputs[k], tm))
+		}
+	}
+	return "&" + rc.typeStr(t) + "{" + strings.Join(parts, ", ") + "}", true
+}
+
+type unusedReplay struct {
 }
 
 func (rc *replayCtx) qual(p *types.Package) string {
@@ -159,13 +200,33 @@ var ifaceStubs = map[string][2]string{
 }
 
 // lit renders the Go literal for a model value of Go type t and returns the matching concrete term.
-func (rc *replayCtx) lit(t types.Type, v *sx, fieldsOf func(ref *big.Int, t types.Type) (string, bool)) (string, *Term, bool) {
+func (rc *replayCtx) lit(t types.Type, v *sx, key string) (string, *Term, bool) {
 	p := rc.ex.p
 	t0 := t
 	t = types.Unalias(t)
 	if isHashType(t) || isAddrType(t) {
-		// abstract sorts: zero value, pinned to the zero constant
-		return rc.typeStr(t0) + "{}", rc.ex.tm.Zero(t), true
+		// abstract sorts: any injective assignment of concrete values to the model's elements is faithful
+		key := v.String()
+		zeroName := "const:ZeroHash"
+		if isAddrType(t) {
+			zeroName = "const:ZeroAddr"
+		}
+		if z, ok := rc.model[zeroName]; ok && z.String() == key {
+			return rc.typeStr(t0) + "{}", rc.ex.tm.Zero(t), true
+		}
+		idx, ok := rc.absVals[key]
+		if !ok {
+			idx = len(rc.absVals) + 1
+			rc.absVals[key] = idx
+			c := rc.ex.p.Const(fmt.Sprintf("replay:abs!%d", idx), rc.ex.tm.SortOf(t))
+			rc.absConsts = append(rc.absConsts, c)
+			rc.pins = append(rc.pins, rc.ex.p.Not(rc.ex.p.Eq(c, rc.ex.tm.Zero(t))))
+		}
+		c := rc.ex.p.Const(fmt.Sprintf("replay:abs!%d", idx), rc.ex.tm.SortOf(t))
+		if isHashType(t) {
+			return fmt.Sprintf("%s{31: %d}", rc.typeStr(t0), idx), c, true
+		}
+		return fmt.Sprintf("%s{19: %d}", rc.typeStr(t0), idx), c, true
 	}
 	switch u := t.Underlying().(type) {
 	case *types.Basic:
@@ -188,7 +249,7 @@ func (rc *replayCtx) lit(t types.Type, v *sx, fieldsOf func(ref *big.Int, t type
 		var parts []string
 		var terms []*Term
 		for i := 0; i < u.NumFields(); i++ {
-			s, tm, ok := rc.lit(u.Field(i).Type(), v.list[i+1], fieldsOf)
+			s, tm, ok := rc.lit(u.Field(i).Type(), v.list[i+1], "")
 			if !ok {
 				return "", nil, false
 			}
@@ -206,18 +267,33 @@ func (rc *replayCtx) lit(t types.Type, v *sx, fieldsOf func(ref *big.Int, t type
 		if n.Sign() == 0 {
 			return "nil", p.Int(0), true
 		}
-		if isNamed(u.Elem(), "math/big", "Int") && rc.bigOf != nil {
-			if bv, ok := rc.bigOf(); ok {
-				rc.imports["math/big"] = "big"
-				rc.needBig = true
-				return fmt.Sprintf("govcBig(%q)", bv.String()), p.IntBig(n), true
+		if key == "" {
+			return "", nil, false
+		}
+		if isNamed(u.Elem(), "math/big", "Int") {
+			if mv, ok := rc.model[key+"#bigval"]; ok {
+				if bv, ok := sxInt(mv); ok {
+					rc.pins = append(rc.pins, rc.ex.p.Eq(rc.ex.inputs[key+"#bigval"], rc.ex.p.IntBig(bv)))
+					rc.importName("math/big", "big")
+					rc.needBig = true
+					return fmt.Sprintf("govcBig(%q)", bv.String()), p.IntBig(n), true
+				}
 			}
 			return "", nil, false
 		}
-		if fieldsOf != nil {
-			if s, ok := fieldsOf(n, u.Elem()); ok {
-				return s, p.IntBig(n), true
+		if isHashType(u.Elem()) || isAddrType(u.Elem()) {
+			if mv, ok := rc.model[key+"#deref"]; ok {
+				s, tm, ok := rc.lit(u.Elem(), mv, "")
+				if ok {
+					rc.pins = append(rc.pins, rc.ex.p.Eq(rc.ex.inputs[key+"#deref"], tm))
+					rc.needPtr = true
+					return "govcPtr(" + s + ")", p.IntBig(n), true
+				}
 			}
+			return "&" + rc.typeStr(u.Elem()) + "{}", p.IntBig(n), true
+		}
+		if s, ok := rc.objLit(key, u.Elem()); ok {
+			return s, p.IntBig(n), true
 		}
 		return "", nil, false
 	case *types.Interface:
@@ -353,40 +429,12 @@ func tryReplay(P *Program, rep *FuncReport, o *Obligation, r *SolveResult, out m
 		out["replay"] = "closures are not replayed"
 		return false
 	}
-	rc := &replayCtx{ex: ex, pkg: fn.Pkg.Pkg, imports: map[string]string{"fmt": "fmt", "testing": "testing"}}
+	rc := &replayCtx{ex: ex, pkg: fn.Pkg.Pkg, imports: map[string]string{"fmt": "fmt", "testing": "testing"}, absVals: map[string]int{}}
 	model := map[string]*sx{}
 	for k, v := range r.Model {
 		model[k] = parseSx(v)
 	}
-	fieldsOf := func(prm string) func(ref *big.Int, t types.Type) (string, bool) {
-		return func(ref *big.Int, t types.Type) (string, bool) {
-			sT, ok := derefStruct(t)
-			if !ok {
-				return "", false
-			}
-			var parts []string
-			for i := 0; i < sT.NumFields(); i++ {
-				f := sT.Field(i)
-				key := "in:" + prm + "." + f.Name()
-				mv, ok := model[key]
-				if !ok {
-					continue // region never read: zero value is as good as any
-				}
-				s, tm, ok := rc.lit(f.Type(), mv, nil)
-				if !ok {
-					rc.notes = append(rc.notes, "field "+key+" could not be reconstructed; left at its zero value and not pinned")
-					continue
-				}
-				if f.Exported() || f.Pkg() == rc.pkg {
-					parts = append(parts, f.Name()+": "+s)
-				}
-				if tm != nil {
-					rc.pins = append(rc.pins, ex.p.Eq(ex.inputs[key], tm))
-				}
-			}
-			return "&" + rc.typeStr(t) + "{" + strings.Join(parts, ", ") + "}", true
-		}
-	}
+	rc.model = model
 	var argExprs []string
 	for i, prm := range fn.Params {
 		key := "in:" + prm.Name()
@@ -395,17 +443,7 @@ func tryReplay(P *Program, rep *FuncReport, o *Obligation, r *SolveResult, out m
 			out["replay"] = "model has no value for " + key
 			return false
 		}
-		prmName := prm.Name()
-		rc.bigOf = func() (*big.Int, bool) {
-			if mv, ok := model["in:"+prmName+"#bigval"]; ok {
-				if n, ok := sxInt(mv); ok {
-					rc.pins = append(rc.pins, ex.p.Eq(ex.inputs["in:"+prmName+"#bigval"], ex.p.IntBig(n)))
-					return n, true
-				}
-			}
-			return nil, false
-		}
-		s, tm, ok := rc.lit(prm.Type(), mv, fieldsOf(prm.Name()))
+		s, tm, ok := rc.lit(prm.Type(), mv, key)
 		if !ok {
 			out["replay"] = fmt.Sprintf("input %s of type %s cannot be reconstructed from the model (%s)", prm.Name(), prm.Type(), r.Model[key])
 			return false
@@ -463,6 +501,9 @@ func tryReplay(P *Program, rep *FuncReport, o *Obligation, r *SolveResult, out m
 	if rc.needBig {
 		helper = "func govcBig(s string) *big.Int { v, _ := new(big.Int).SetString(s, 10); return v }\n\n"
 	}
+	if rc.needPtr {
+		helper += "func govcPtr[T any](v T) *T { return &v }\n\n"
+	}
 	src := fmt.Sprintf("package %s\n\nimport (\n%s\n)\n\n%sfunc TestGovcReplay(t *testing.T) {\n\tdefer func() {\n\t\tif r := recover(); r != nil {\n\t\t\tfmt.Printf(\"GOVC-PANIC %%v\\n\", r)\n\t\t}\n\t}()\n%s\tfmt.Println(\"GOVC-DONE\")\n}\n",
 		fn.Pkg.Pkg.Name(), strings.Join(imps, "\n"), helper, body.String())
 	out["replay_test"] = src
@@ -511,6 +552,15 @@ func tryReplay(P *Program, rep *FuncReport, o *Obligation, r *SolveResult, out m
 	}
 	p := ex.p
 	pins := append([]*Term(nil), rc.pins...)
+	bySort := map[string][]*Term{}
+	for _, c := range rc.absConsts {
+		bySort[c.Sort.String()] = append(bySort[c.Sort.String()], c)
+	}
+	for _, cs := range bySort {
+		if len(cs) > 1 {
+			pins = append(pins, p.Distinct(cs...))
+		}
+	}
 	observed := map[string]string{}
 	for _, line := range strings.Split(txt, "\n") {
 		var idx int
